@@ -123,8 +123,10 @@ impl<'xml> Deserializer<'xml> {
                     DeEvent::Start(x)
                 }
 
+                // a CDATA section is character data: it denotes the same characters as the escaped text
+                Event::CData(x) => DeEvent::Text(x.escape().map_err(|e| invalid_xml(e.into()))?),
                 // ignore the others
-                Event::Comment(_) | Event::CData(_) | Event::Decl(_) | Event::PI(_) | Event::DocType(_) => continue,
+                Event::Comment(_) | Event::Decl(_) | Event::PI(_) | Event::DocType(_) => continue,
             };
             break Ok(de);
         }
